@@ -17,6 +17,8 @@ mod scheduler;
 mod signal;
 mod store;
 mod utils;
+#[cfg(feature = "verif")]
+pub mod verif;
 
 #[cfg(test)]
 mod tests;
